@@ -9,10 +9,9 @@ table (`Kanidm.Gen.Validity.rows`: which function contains which gate, reading w
 through which gated functions its successes flow) are regenerated from the source on every run; the
 right-hand sides below (`InWindow`, `StrictlyInWindow`) are written from the property text.
 
-The full statement "every entry point is gated" is **false of the current tree**: the LDAP bind that
-takes a login token or an api token as the password (`token_auth_ldap`) answers from the token's own
-signature and expiry and never looks at the account. It is kept as `…_full`, refuted from the
-generated table (`…_full_false`), and the strongest `…_partial` (every other entry point) is proved.
+Every entry point is gated since the repair of the LDAP token bind (`token_auth_ldap` answered from
+the token's own signature and expiry and never looked at the account: fixed D41, its witness is a
+passing regression case of the harness).
 -/
 namespace Kanidm.Validity
 open Kanidm.Gen.Validity
@@ -87,20 +86,9 @@ theorem reduced_view_is_unsound :
 /-- Every row a call refers to exists (the walk never falls off the table). -/
 theorem table_closed : ∀ r ∈ rows, ∀ c ∈ r.calls, (rowOf c).isSome = true := by decide
 
-/-- FULL statement: every public entry point that authenticates an account or releases a credential
-contains the validity gate or reaches success only through functions that do. -/
-def every_entry_point_gated_full : Prop := ∀ s ∈ entryPoints, gated depth s = true
-
-/-- False of the current tree: `token_auth_ldap` has no gate and calls no gated function. -/
-theorem every_entry_point_gated_full_false : ¬ every_entry_point_gated_full := by
-  intro h
-  have := h .token_auth_ldap (by decide)
-  revert this
-  decide
-
-/-- Every entry point except the LDAP token bind is gated. -/
-theorem every_entry_point_gated_partial :
-    ∀ s ∈ entryPoints, s ≠ .token_auth_ldap → gated depth s = true := by
+/-- Every public entry point that authenticates an account or releases a credential contains the
+validity gate or reaches success only through functions that do. -/
+theorem every_entry_point_gated : ∀ s ∈ entryPoints, gated depth s = true := by
   decide
 
 example : Sid.get_radiusauthtoken ∈ entryPoints ∧ Sid.oauth2_token_exchange ∈ entryPoints ∧
@@ -108,40 +96,26 @@ example : Sid.get_radiusauthtoken ∈ entryPoints ∧ Sid.oauth2_token_exchange 
 
 /-! ## The property -/
 
-/-- FULL statement of C49 over the model: whatever the asking identity may read, whatever the other
-preconditions, no entry point answers `ok` for an account outside its window. -/
-def outside_window_refused_full : Prop :=
-  ∀ s ∈ entryPoints, ∀ (a : Acl) (w : Window) (ct : Nat) (pre : Bool),
-    ¬ InWindow w ct → attempt s a w ct pre = .refused
-
-/-- False of the current tree: an LDAP bind with an unexpired token of an account that expired at
-10 succeeds at 11. The harness replays this witness on the implementation. -/
-theorem outside_window_refused_full_false : ¬ outside_window_refused_full := by
-  intro h
-  have := h .token_auth_ldap (by decide) ⟨true, true⟩ ⟨none, some 10⟩ 11 true (by decide)
-  revert this
-  decide
-
-/-- **C49 (every entry point but the LDAP token bind).** A success implies the stored window
-contains the request time — for every asking identity and every state of the other preconditions. -/
-theorem success_implies_in_window (s : Sid) (hs : s ∈ entryPoints) (hne : s ≠ .token_auth_ldap)
+/-- **C49.** A success at any entry point implies the stored window contains the request time — for
+every asking identity and every state of the other preconditions. -/
+theorem success_implies_in_window (s : Sid) (hs : s ∈ entryPoints)
     (a : Acl) (w : Window) (ct : Nat) (pre : Bool) (hok : attempt s a w ct pre = .ok) :
     (∀ v, w.vf = some v → v ≤ ct) ∧ (∀ e, w.ex = some e → ct ≤ e) := by
   unfold attempt at hok
   by_cases hp : (pre && passes depth s a w ct) = true
   · simp only [Bool.and_eq_true] at hp
-    exact passes_sound depth s (every_entry_point_gated_partial s hs hne) depth a w ct hp.2
+    exact passes_sound depth s (every_entry_point_gated s hs) depth a w ct hp.2
   · simp [hp] at hok
 
-/-- **C49, as a refusal.** Before valid-from or after expiry every gated entry point refuses. -/
-theorem outside_window_refused_partial (s : Sid) (hs : s ∈ entryPoints) (hne : s ≠ .token_auth_ldap)
+/-- **C49, as a refusal.** Before valid-from or after expiry every entry point refuses — whoever asks. -/
+theorem outside_window_refused (s : Sid) (hs : s ∈ entryPoints)
     (a : Acl) (w : Window) (ct : Nat) (pre : Bool)
     (hout : (∃ v, w.vf = some v ∧ ct < v) ∨ (∃ e, w.ex = some e ∧ e < ct)) :
     attempt s a w ct pre = .refused := by
   cases h : attempt s a w ct pre with
   | refused => rfl
   | ok =>
-    have hw := success_implies_in_window s hs hne a w ct pre h
+    have hw := success_implies_in_window s hs a w ct pre h
     rcases hout with ⟨v, hv, hlt⟩ | ⟨e, he, hlt⟩
     · exact absurd (hw.1 v hv) (Nat.not_le_of_lt hlt)
     · exact absurd (hw.2 e he) (Nat.not_le_of_lt hlt)
@@ -151,7 +125,9 @@ example : attempt .get_radiusauthtoken ⟨false, false⟩ ⟨none, some 10⟩ 25
     attempt .oauth2_token_exchange ⟨true, true⟩ ⟨some 5, some 10⟩ 11 true = .refused ∧
     attempt .oauth2_token_exchange ⟨true, true⟩ ⟨some 5, some 10⟩ 10 true = .ok ∧
     attempt .auth ⟨true, true⟩ ⟨some 5, none⟩ 4 true = .refused ∧
-    attempt .auth ⟨true, true⟩ ⟨some 5, none⟩ 5 true = .ok := by decide
+    attempt .auth ⟨true, true⟩ ⟨some 5, none⟩ 5 true = .ok ∧
+    attempt .token_auth_ldap ⟨true, true⟩ ⟨none, some 10⟩ 11 true = .refused ∧
+    attempt .token_auth_ldap ⟨true, true⟩ ⟨none, some 10⟩ 10 true = .ok := by decide
 
 /-- **Whatever identity asks.** The read rights of the asking identity enter no decision. -/
 theorem asking_identity_irrelevant (s : Sid) (a a' : Acl) (w : Window) (ct : Nat) (pre : Bool) :
